@@ -66,6 +66,23 @@ func hasUnknownDeep(ss pipeline.Steps) bool {
 	return false
 }
 
+// c06nilDims gives every map-form matrix a further dimension whose value list is nil (not something a parsed
+// document contains; an API user can build it)
+func c06nilDims(ss pipeline.Steps) {
+	for _, s := range ss {
+		switch t := s.(type) {
+		case *pipeline.CommandStep:
+			if t.Matrix != nil && t.Matrix.Setup != nil {
+				if _, anonymous := t.Matrix.Setup[""]; !anonymous || len(t.Matrix.Setup) > 1 {
+					t.Matrix.Setup["zz_nil_dimension"] = nil
+				}
+			}
+		case *pipeline.GroupStep:
+			c06nilDims(t.Steps)
+		}
+	}
+}
+
 func init() {
 	props["C06"] = func(rng *sx.Rng, thorough bool) {
 		keys := signKeyPool(thorough)
@@ -191,9 +208,17 @@ func init() {
 			c := sx.L(ds, pairsSexp(penv), sx.A(repo), sx.A(fmt.Sprintf("key%d", ki)))
 			// the steps as Go values before anything observes them (deep dump, unexported fields included): signing
 			// may attach signatures and nothing else - also nothing that marshals the same afterwards
+			// (one case in four: matrices as an API user may build them, with a dimension whose value list is nil)
+			apiBuilt := i%4 == 2
+			if apiBuilt {
+				c06nilDims(p.Steps)
+			}
 			snapBefore := c19snapshot(p.Steps)
 			var before []byte
 			if p0, err0 := pipeline.Parse(strings.NewReader(text)); err0 == nil || warning.Is(err0) {
+				if apiBuilt {
+					c06nilDims(p0.Steps)
+				}
 				before, _ = json.Marshal(p0.Steps)
 			}
 			// some steps arrive already signed (an earlier signing with another key of the same algorithm, or a stale
